@@ -12,7 +12,7 @@ CLAIMED = {
     "C02": {
         "text": "Solver-decided over unbounded integers/reals: slice/pad arithmetic, out-of-bound <=> no overlap, and the sampling rule "
                 "pos/scale + R(o-(shape-1)/2) for every explored path of the real construct_loading_tasks (tomogram size, position, scale, "
-                "box shape and rotation matrix symbolic; orders 0/1/3; corner_safe with exact rational orientations). Bounded by the listed shape/orientation sets for corner_safe only.",
+                "box shape and rotation matrix symbolic; orders 0/1/3; corner_safe with exact rational orientations). Bounded by the listed shape/orientation sets for corner_safe only. Also: loading leaves the molecule positions untouched (same loader used twice), unrotated molecules on concrete boxes (shortcuts that skip interpolation), the interpolation support is [0, n-1] for every order (order 0 included: found the defect fixed in 611acbc), the tasks of a batch computed in ONE dask graph.",
         "note": "Trusted: z3; the symx engine; the NdiStub contract of scipy.ndimage.affine_transform (out[o]=Interp(input, M(o,1)); conformance-tested every run); "
                 "dask.pad(mode='mean') fill contract; exact-real model of float32 arithmetic. Not covered: cubic-spline edge accuracy, dask chunking.",
         "ref": "DESIGN.md §4 C02",
@@ -37,7 +37,7 @@ CLAIMED = {
     },
     "C03": {
         "text": "Loaders over shape-only tomograms and molecules with symbolic position/orientation tags, on the real polars and the real dask.delayed: the k-th loading task is identified (tomogram read + molecule whose position z3 proves equal to the sampled centre) as molecule k on the tomogram registered for its id - for single loaders, batches with every image-id ordering of length 2-4, groups and derived loaders; "
-                "per-molecule kwargs k and apply() row k belong to subtomogram k; derived loaders hold exactly the selected molecules; groups partition; derived groups are re-iterable; sources untouched.",
+                "per-molecule kwargs k and apply() row k belong to subtomogram k; derived loaders hold exactly the selected molecules; groups partition; derived groups are re-iterable; sources untouched. apply(f_0..f_k-1) on loaders and groups: cell (i, j) = f_j of the sub-tomogram of molecule i, also for square tables (k = n) and k = 1; derived batches do not share their image registry with the parent; all tasks of a loader computed in one real dask graph.",
         "note": "Trusted: z3, symx, real polars (Object columns), real dask.delayed (synchronous), C02's affine_transform contract. Bounds: 3-4 molecules per loader well inside 200^3 tomograms, 2-3 tomograms, operation sequences <= 2. Not covered: classification write-back (C18 n/a; same task order), polars internals.",
         "ref": "DESIGN.md §4 C03",
     },
@@ -80,7 +80,7 @@ CLAIMED = {
         "ref": "DESIGN.md §4 C08",
     },
     "C09": {
-        "text": "average/average_split/LoaderGroup.average(_split) executed on a loader whose i-th subtomogram is a one-voxel symbolic image, dask.array replaced by a stack/mean/compute stub and the random generator by a stub with symbolic picks: the explorer covers every possible split; z3 proves average = arithmetic mean, the two halves are the means of a partition into two non-empty sets (N>=2), their count-weighted mean is the full average, same seed => same split, n_set draws successive picks from one stream, group averages use each group's own molecules.",
+        "text": "average/average_split/LoaderGroup.average(_split) executed on a loader whose i-th subtomogram is a one-voxel symbolic image, dask.array replaced by a stack/mean/compute stub and the random generator by a stub with symbolic picks: the explorer covers every possible split; z3 proves average = arithmetic mean, the two halves are the means of a partition into two non-empty sets (N>=2), their count-weighted mean is the full average, same seed => same split, n_set draws successive picks from one stream, group averages use each group's own molecules. Loader reuse: loading does not modify the molecules (C02's fact) and MockLoader never writes into the caller's template, so an average is the mean of what a second load returns.",
         "note": "Trusted: z3, symx, DaskArrayStub (numpy meaning of stack/mean/compute), RngStub (choice returns elements of its argument, repetition allowed; stream determined by the seed), real polars. Bounds: N<=5 (average), N in 2..4/2..6 (splits), n_set<=2. NOT covered (stated): 'however the tomogram is chunked' - dask's chunked reductions are environment; BatchLoader.average shares LoaderBase.average (task order is C03).",
         "ref": "DESIGN.md §4 C09",
     },
@@ -122,7 +122,7 @@ CLAIMED = {
     },
     "C17": {
         "text": "fourier_shell_correlation executed on image pairs with symbolic voxels over an exact DFT (box sides in {1,2,4}), square roots opaque: every returned value is N/Sqrt(R) with N = Re sum F1 conj(F2) and R = sum|F1|^2 sum|F2|^2 over exactly the bins of shell floor(|f|/dfreq) (shells and DFT recomputed independently with rational arithmetic), symmetric in the inputs, N'=gN / R'=g^2R under a positive gain, N*N=R and N=power for identical inputs, freq=(i+1/2)dfreq. "
-                "Shell labels of the FSC alignment score compared on all 125 shapes in {1..5}^3. Loader-level FSC executed on the C09 stand-in loader: the correlated images are the two zero-normalised split halves times the mask, one column per split, explicit/default dfreq.",
+                "Shell labels of the FSC alignment score compared on all 125 shapes in {1..5}^3. Loader-level FSC executed on the C09 stand-in loader: the correlated images are the two zero-normalised split halves times the mask, one column per split, explicit/default dfreq. Odd sides 3 and 6 are covered with a symbolic sqrt(3) (hypothesis sqrt3^2 = 3): boxes (1,1,3), (1,2,3), (1,3,3); numerator and radicand are compared up to one common positive factor; a guarded division must have the guard 'radicand > 0' (no amplitude-dependent threshold).",
         "note": "Trusted: z3 (ring identities), symx, FFTStub exact DFT, NdiStub.sum_labels, Cauchy-Schwarz per shell as a lemma for [-1,1], C09's dask/rng stubs. Bounds: boxes with sides in {1,2,4}, <= 8 voxels quick / <= 32 thorough, (box, dfreq) pairs without empty shells. Not covered: other box sides, uint16 label overflow for tiny dfreq, the numeric value of the backend fsc() score.",
         "ref": "DESIGN.md §4 C17",
     },
